@@ -323,6 +323,16 @@ class WritableVersion(dns.zone.WritableVersion):
                 self.delegations.add(name)
                 self.update_glue_flag(name, True)
         node.replace_rdataset(rdataset)
+        if (
+            rdataset.rdtype != dns.rdatatype.NS
+            and name in self.delegations
+            and node.get_rdataset(self.zone.rdclass, dns.rdatatype.NS) is None
+        ):
+            # Storing the rdataset evicted the NS rdataset (CNAME exclusivity), so
+            # this is no longer a delegation point.
+            node.flags &= ~NodeFlags.DELEGATION  # type: ignore
+            self.delegations.discard(name)
+            self.update_glue_flag(name, False)
 
     def delete_rdataset(
         self,
